@@ -753,6 +753,14 @@ func (e *Engine) checkPost(st *State, fr *Frame, c *Contract, rets []*Val) {
 		}
 	}
 	defer func() { e.curReplay = saved }()
+	if len(c.PostHints) > 0 {
+		// definitional instances (unfold) usable by the postconditions
+		henv := *env
+		henv.assuming = true
+		for _, h := range c.PostHints {
+			st.assume(e.evalBool(&henv, h))
+		}
+	}
 	for i, en := range c.Ensures {
 		label := en.Label
 		if label == "" {
